@@ -51,6 +51,7 @@ def gen_pattern(rng, max_nodes=5):
     named: dict = {}
     shared_leaf: list = []  # unnamed leaf objects that may be reused (identity sharing)
     shared_or: list = []
+    tagvars: list = []
 
     def var():
         if named and rng.random() < 0.55:
@@ -111,6 +112,12 @@ def gen_pattern(rng, max_nodes=5):
             oid = next(ids)
             if rng.random() < 0.4:
                 tagvar = f"tag{oid}"
+                if tagvars and rng.random() < 0.25:
+                    # a tag variable shared with another OR value: the second bind clashes when the two select
+                    # alternatives with different tags (BacktrackingOr: next alternative; OpIdDispatchOr: the
+                    # result of bind is ignored, the partial match is failed)
+                    tagvar = rng.choice(tagvars)
+                tagvars.append(tagvar)
                 if rng.random() < 0.4:
                     tags = [rng.randint(5, 9) for _ in range(k)]
             o = ["OR", oid, (f"or{oid}" if rng.random() < 0.25 else None), tagvar, tags, alts]
@@ -594,4 +601,56 @@ def tolerance_cases():
                             g = {"nodes": [{"dom": "", "op": op, "ov": "", "inputs": gins, "attrs": [], "outputs": [2]}],
                                  "outputs": [2], "consts": [[1, [], [h]]], "foreign": [], "foreign_kind": "free", "ext": []}
                             out.append({"pattern": p, "graph": g, "root": 0, "rm": False, "commute": True})
+    return out
+
+
+def tag_cases():
+    """OR values with tag variables that are shared, clash, or coincide with a variable name: two OR values
+    (OpIdDispatchOr over Neg/Sub outputs, or BacktrackingOr with a variable alternative) as the operands of one
+    Add, the second one optionally wrapped in a BacktrackingOr (tagged or not), against hosts selecting equal /
+    different alternatives.  Covers the ignored result of bind(tag_var, i) of OpIdDispatchOr (top level: the match
+    fails; inside an alternative: finding C06-F9) and the repaired BacktrackingOr tag clash (C06-F8)."""
+    out = []
+    x = ["V", 1, "x", False, None]
+
+    def node(op, ins):
+        return {"aoa": None, "aoi": None, "attrs": [], "check": None, "dom": ["e", ""], "inputs": ins,
+                "op": ["e", op], "outputs": [None]}
+
+    def gnode(op, ins, outs):
+        return {"attrs": [], "dom": "", "inputs": ins, "op": op, "outputs": outs, "ov": ""}
+
+    hosts = [
+        ([gnode("Neg", [0], [1]), gnode("Sub", [0, 0], [2]), gnode("Add", [1, 2], [3])], 2),
+        ([gnode("Neg", [0], [1]), gnode("Sub", [0, 0], [2]), gnode("Add", [2, 1], [3])], 2),
+        ([gnode("Neg", [0], [1]), gnode("Add", [1, 1], [2])], 1),
+        ([gnode("Sub", [0, 0], [1]), gnode("Add", [1, 1], [2])], 1),
+        ([gnode("Neg", [0], [1]), gnode("Add", [1, 0], [2])], 1),
+    ]
+    for kind1 in ("D", "B"):
+        for kind2 in ("D", "B"):
+            for tag2 in ("t", "u", "x", None):
+                for tags2 in (None, [0, 0], [1, 0]):
+                    for wrap in (None, "plain", "tagged-t", "tagged-w"):
+                        def orv(oid, kind, tag, tags):
+                            alts = [["O", 0, 0], ["O", 1, 0]] if kind == "D" else [["O", 0, 0], copy.deepcopy(x)]
+                            return ["OR", oid, None, tag, tags if tag else None, alts]
+                        o1 = orv(10, kind1, "t", None)
+                        o2 = orv(11, kind2, tag2, tags2)
+                        ins = ["x"]
+                        if wrap:
+                            wt = {"plain": None, "tagged-t": "t", "tagged-w": "w"}[wrap]
+                            o2 = ["OR", 12, None, wt, None, [o2, ["V", 13, "y", False, None]]]
+                            ins = ["x", "y"]
+                        for operands in ([o1, o2], [o2, o1]):
+                            p = {"cond": True, "inputs": ins,
+                                 "nodes": [node("Neg", [copy.deepcopy(x)]),
+                                           node("Sub", [copy.deepcopy(x), copy.deepcopy(x)]),
+                                           node("Add", copy.deepcopy(operands))],
+                                 "outputs": [["O", 2, 0]]}
+                            for gn, root in hosts:
+                                g = {"consts": [], "ext": [], "foreign": [], "foreign_kind": "free",
+                                     "nodes": copy.deepcopy(gn), "outputs": [gn[-1]["outputs"][0]]}
+                                out.append({"pattern": p, "graph": g, "root": root, "rm": False,
+                                            "commute": operands[0] is o1})
     return out
